@@ -264,7 +264,7 @@ theorem map_getD_range {α : Type} (l : List α) (d : α) :
   · intro i h1 h2
     simp [List.getElem?_eq_getElem h2]
 
-theorem getD_map' {α β : Type} (f : α → β) (l : List α) (d : α) (d' : β) {i : Nat}
+theorem rs_getD_map' {α β : Type} (f : α → β) (l : List α) (d : α) (d' : β) {i : Nat}
     (h : i < l.length) : (l.map f).getD i d' = f (l.getD i d) := by
   rw [getD_eq_getElem' (by simpa using h), getD_eq_getElem' h, List.getElem_map]
 
@@ -454,7 +454,7 @@ theorem rsEncode_spec {k m bs : Nat} (hkm : k + m ≤ 65536) (hbs : bs % 2 = 0)
   intro i hi
   obtain ⟨p, hp, hl, hw⟩ := parityOf_spec hkm hbs data hdl hdb hi
   have hget : ((List.range m).map (fun i => (parityOf k data bs i).getD [])).getD i [] = p := by
-    rw [getD_map' _ _ 0 _ (by simpa using hi), getD_eq_getElem' (by simpa using hi)]
+    rw [rs_getD_map' _ _ 0 _ (by simpa using hi), getD_eq_getElem' (by simpa using hi)]
     simp [hp]
   rw [hget]
   exact ⟨hp, hl, hw⟩
@@ -495,7 +495,7 @@ theorem toMatrix_matOfRows {k : Nat} (avail : List Nat) (hl : avail.length = k) 
   show GF16.ofNat ((matOfRows (n := k) (avail.map (genRow (genEntry k) k))).get a b) =
     GF16.ofNat (genEntry k (avail.getD a 0) b)
   simp only [matOfRows, Mat.get_ofFn]
-  rw [getD_map' _ _ 0 _ (by rw [hl]; exact a.isLt), genRow_getD _ _ b.isLt]
+  rw [rs_getD_map' _ _ 0 _ (by rw [hl]; exact a.isLt), genRow_getD _ _ b.isLt]
 
 theorem matOfRows_bounded {k m : Nat} (hkm : k + m ≤ 65536) (avail : List Nat)
     (hl : avail.length = k) (hlt : ∀ r ∈ avail, r < k + m) :
@@ -503,7 +503,7 @@ theorem matOfRows_bounded {k m : Nat} (hkm : k + m ≤ 65536) (avail : List Nat)
   intro a b
   simp only [matOfRows, Mat.get_ofFn]
   have ha : a.val < avail.length := by rw [hl]; exact a.isLt
-  rw [getD_map' _ _ 0 _ ha, genRow_getD _ _ b.isLt]
+  rw [rs_getD_map' _ _ 0 _ ha, genRow_getD _ _ b.isLt]
   apply genEntry_lt hkm
   rw [getD_eq_getElem' ha]
   exact hlt _ (List.getElem_mem ha)
@@ -630,14 +630,14 @@ theorem eraseData_getD (data : List Bytes) (missing : List Nat) {k i : Nat} (bs 
     (hi : i < k) : (eraseData data missing k bs).getD i [] =
       if missing.contains i then zeros bs else data.getD i [] := by
   unfold eraseData
-  rw [getD_map' _ _ 0 _ (by simpa using hi), getD_eq_getElem' (by simpa using hi)]
+  rw [rs_getD_map' _ _ 0 _ (by simpa using hi), getD_eq_getElem' (by simpa using hi)]
   simp
 
 theorem eraseParity_getD (parity : List Bytes) (missing : List Nat) {m i : Nat} (k bs : Nat)
     (hi : i < m) : (eraseParity parity missing k m bs).getD i [] =
       if missing.contains (k + i) then zeros bs else parity.getD i [] := by
   unfold eraseParity
-  rw [getD_map' _ _ 0 _ (by simpa using hi), getD_eq_getElem' (by simpa using hi)]
+  rw [rs_getD_map' _ _ 0 _ (by simpa using hi), getD_eq_getElem' (by simpa using hi)]
   simp
 
 theorem bufAt_erase (data parity : List Bytes) (missing : List Nat) {k m r : Nat} (bs : Nat)
@@ -733,7 +733,7 @@ theorem decData_correct {k m bs : Nat} {data parity : List Bytes} (st : Stripe k
           wordAt (wordsOf (data.getD j [])) w) * toMatrix N ⟨i, hik⟩ a := by
       intro a
       have ha : a.val < (availOf k m missing).length := by rw [hal]; exact a.isLt
-      rw [getD_map' _ _ 0 _ ha, matRow_getD N hik a.isLt]
+      rw [rs_getD_map' _ _ 0 _ ha, matRow_getD N hik a.isLt]
       have hr : (availOf k m missing).getD a 0 < k + m := by
         rw [getD_eq_getElem' ha]
         exact (availOf_mem (List.getElem_mem ha)).1
